@@ -1,3 +1,79 @@
+(* reshape_samples / _get_mode_order: entry (shot, spatial mode, time bin) is the outcome of that pulse. *)
 From Coq Require Import List ZArith Bool Arith Lia.
 Import ListNotations.
 From SFV Require Import C13.Model.
+
+(* the raw samples_dict of a register-shifting run: band b is measured in global bin g on register
+   reference start_b + g mod N_b; the outcome is tagged (g, b) -> g * #bands + b; dict keys appear in
+   first-insertion order *)
+Fixpoint push (d : list (nat * list nat)) (k v : nat) : list (nat * list nat) :=
+  match d with
+  | [] => [(k, [v])]
+  | (k', vs) :: r => if Nat.eqb k' k then (k', vs ++ [v]) :: r else (k', vs) :: push r k v
+  end.
+Definition events (N : list nat) (T shots : nat) : list (nat * nat) :=
+  flat_map (fun g => map (fun b => (band_start N b + g mod nth b N 1, g * length N + b)) (seq 0 (length N)))
+           (seq 0 (shots * T)).
+Definition raw_samples (N : list nat) (T shots : nat) : list (nat * list nat) :=
+  fold_left (fun d e => push d (fst e) (snd e)) (events N T shots) [].
+Definition measured (N : list nat) : list nat := map (band_start N) (seq 0 (length N)).
+
+(* what the property demands: key = leading mode of band b; row t, column s = outcome of pulse
+   (b, s*T + t) *)
+Definition expected (N : list nat) (T shots : nat) : list (nat * list (list nat)) :=
+  map (fun b => (band_start N b,
+                 map (fun t => map (fun s => (s * T + t) * length N + b) (seq 0 shots)) (seq 0 T)))
+      (seq 0 (length N)).
+
+Definition layout_statement (N : list nat) (T shots : nat) : Prop :=
+  reshape_samples (raw_samples N T shots) (measured N) N T = Some (expected N T shots).
+
+Definition result_eq_dec : forall a b : option (list (nat * list (list nat))), {a = b} + {a <> b}.
+Proof. repeat decide equality. Defined.
+
+Definition layout_check (N : list nat) (T shots : nat) : bool :=
+  if result_eq_dec (reshape_samples (raw_samples N T shots) (measured N) N T) (Some (expected N T shots))
+  then true else false.
+
+Lemma layout_check_sound : forall N T shots, layout_check N T shots = true -> layout_statement N T shots.
+Proof. intros N T shots. unfold layout_check, layout_statement. destruct (result_eq_dec _ _); [auto|discriminate]. Qed.
+
+(* all band lists with at most nb bands of 1..m concurrent modes *)
+Fixpoint band_lists (nb m : nat) : list (list nat) :=
+  match nb with
+  | 0 => [[]]
+  | S k => [] :: flat_map (fun n => map (cons n) (band_lists k m)) (seq 1 m)
+  end.
+
+Definition sweep (nb m Tmax smax : nat) : bool :=
+  forallb (fun N => match N with [] => true | _ =>
+    forallb (fun T => forallb (fun s => layout_check N T s) (seq 1 smax)) (seq 1 Tmax) end) (band_lists nb m).
+
+Lemma sweep_3_4_5_3 : sweep 3 4 5 3 = true.
+Proof. vm_compute. reflexivity. Qed.
+
+Lemma in_band_lists : forall nb m N, length N <= nb -> Forall (fun n => 1 <= n <= m) N -> In N (band_lists nb m).
+Proof.
+  induction nb; intros m N HL HF.
+  - destruct N; [now left|simpl in HL; lia].
+  - destruct N as [|n N']; [now left|]. right.
+    inversion HF; subst. apply in_flat_map. exists n. split; [apply in_seq; lia|].
+    apply in_map. apply IHnb; [simpl in HL; lia|assumption].
+Qed.
+
+(* bounded: at most 3 bands of 1..4 modes, 1..5 time bins, 1..3 shots *)
+Theorem samples_layout_bounded : forall N T shots,
+  N <> [] -> length N <= 3 -> Forall (fun n => 1 <= n <= 4) N -> 1 <= T <= 5 -> 1 <= shots <= 3 ->
+  layout_statement N T shots.
+Proof.
+  intros N T shots HN HL HF HT Hs. apply layout_check_sound.
+  pose proof sweep_3_4_5_3 as S. unfold sweep in S. rewrite forallb_forall in S.
+  specialize (S N (in_band_lists 3 4 N HL HF)). destruct N; [contradiction|].
+  rewrite forallb_forall in S. specialize (S T ltac:(apply in_seq; lia)).
+  rewrite forallb_forall in S. apply S. apply in_seq. lia.
+Qed.
+
+(* a space-unrolled run measures modes 0,1,2,...: reshaping fails as soon as timebins > N *)
+Lemma space_reshape_refuted : exists n T, 
+  reshape_samples (map (fun g => (g, [g])) (seq 0 T)) [0] [n] T = None.
+Proof. exists 2, 3. reflexivity. Qed.
